@@ -36,7 +36,7 @@ CHECKS = {
          "The matched fact is what the engine injects for the rule's type. 'Satisfies' is typed; absent fields and kind mismatches are Undefined and skipped (counted). HashMap order is uncontrolled, so replays repeat 32 times. Join rules, accumulate/exists/forall and stream nodes are not generated.",
          "DESIGN.md §5 C06"),
  "C07": ("exploration",
-         "API-level trace monitor of AdvancedAgenda against a shadow multiset with limbo (exhaustive and random), logical-step termination monitor in child processes for five fire_all entry points, engine-level no-loop / salience-order / bound monitors on IncrementalEngine histories",
+         "API-level trace monitor of AdvancedAgenda against a shadow multiset with limbo (exhaustive and random), logical-step termination monitor in child processes for five fire_all entry points, engine-level no-loop / salience-order / bound monitors on IncrementalEngine histories, exact firing-order monitor for the closure-driven engines",
          "Part A drives AdvancedAgenda with every sequence of a 21-operation alphabet to the stated length plus random sequences and checks each pop against a shadow multiset (no eligible pending activation of the focused group with a larger (salience, earlier-created) key; no-loop and activation-group exclusivity between resets). Part B runs rule programs incl. always-true rules without no-loop on IncrementalEngine, TypedReteUlEngine, ReteUlEngine and the free fire_rete_ul_rules* functions in child processes; action closures count executions and unwind beyond 100 x 1000 x #rules (logical 'does not return'); documented iteration bounds are checked. Part C checks no-loop, salience order and the bound on IncrementalEngine histories. Held = no explored sequence or program broke a clause apart from the pinned findings.",
          "'Earlier-created' is the order of Activation::new calls with forced distinct instants (equal-instant ties are not exercised). Lock-on-active, auto_focus activations and one ruleflow group are exercised at API level (queued members of a ruleflow group switched off later are not judged); non-Salience strategies are outside the statement. Action-free spinning can only be inconclusive under the CPU back-stop (none occurred).",
          "DESIGN.md §5 C07"),
@@ -71,17 +71,17 @@ CHECKS = {
          "Trusts the harness's shadow bookkeeping (ids, max timestamp) and that lateness <= bound is 'allowed'. Says nothing about Periodic/Custom strategies (wall-clock driven, not in the statement).",
          "DESIGN.md §5 C13"),
  "C14": ("exploration",
-         "reference-model trace monitor over ALL merges of two arrival orders (exhaustive small scope + seeded random pairs), driving StreamJoinNode directly and through StreamJoinManager, with and without watermark updates",
+         "reference-model trace monitor over ALL merges of two arrival orders (exhaustive small scope + seeded random pairs), driving StreamJoinNode directly and through StreamJoinManager, with and without watermark updates; set-equality monitor over the pairs handed out when two producer threads feed one manager",
          "Every JoinedEvent returned by process_left/process_right/update_watermark (or delivered to the manager's handler) is tagged with harness-assigned unique ids and compared with the reference inner join of the events that have arrived: nothing outside the reference, nothing twice, and a reference pair may be missing only if its first-arrived side was eligible for eviction (watermark - ts > window) at a watermark update before the partner arrived; without watermark updates the emitted multiset must equal the reference exactly and emitted sets are also compared directly between merges. For every generated pair (<=4+4 events, 1-3 keys, keyless events, ts 0..6, windows 0/1/2/5 s, condition true or l.v<=r.v) all <=70 merges are run; all pairs of <=2+2 events over a stated small domain are enumerated with every placement and value of one watermark update. Held = no listed run broke a clause.",
          "Window and timestamps in whole seconds (the node's as_secs() convention; the millisecond wording is not judged). Event ids are unique or (1/5 of the random pairs) per-entity ids reused across timestamps; two events of one stream sharing id AND timestamp are not judged. Which eligible events are evicted is not prescribed. Only Inner + TimeWindow; outer joins, count/session windows, self-joins and watermark regress are outside the statement.",
          "DESIGN.md §5 C14"),
  "C15": ("exploration",
-         "model-based step monitor over exhaustive and random operation sequences (ordered list + version model); linearizability checking (WGL search, memoised) of recorded 3-thread histories under seeded schedule perturbation (hook H5); Miri many-seeds and a ThreadSanitizer build of the same generator in the thorough tier; deadlock watchdog",
+         "model-based step monitor over exhaustive and random operation sequences (ordered list + version model); linearizability checking (WGL search, memoised) of recorded 3-thread histories under seeded schedule perturbation (hook H5); exact single-writer / many-readers history checker on rule bases of 65-520 rules; the step monitor also over a knowledge base and its clones; Miri many-seeds and a ThreadSanitizer build of the same generator in the thorough tier; deadlock watchdog",
          "Sequentially, every sequence of the 25 mutating operations (4 names x 3 saliences) up to length 5 (thorough 6) and random sequences up to length 8 (some to 16, plus long 48-name sequences) are run on a real KnowledgeBase; return value and version are checked after every operation and every read view (get_rule for all names, get_rules, get_rule_names, rule_count, get_rules_by_salience+get_rule_by_index, get_statistics, version) is compared with an ordered-list+version model of the statement. Concurrently, random programs of 3 threads x 4 operations (all ten operation kinds, 2-3 names) run on one Arc<KnowledgeBase> with seeded yields/sleeps at the library's schedule points; every recorded history (client-side call/return stamps from one atomic clock) must have a linearisation that the model accepts. Thorough repeats the generator under Miri's seeded scheduler (data races, deadlocks, UB are violations) and in a ThreadSanitizer build. Held = no explored sequence, history or sanitizer run broke a clause.",
          "Exhaustive only to length 5/6 of the stated 8 (25^8 = 1.5·10^11 is out of reach by execution); lengths 6..8 are sampled. Schedules are those reached by perturbed native runs, Miri's 64 seeds and TSan stress, not all schedules. The version need only grow, not by one; on missing-name operations it may stay or grow. get_rules_by_salience + get_rule_by_index is two calls and is judged sequentially only. A schedule-dependent violation is replayed by re-executing its program up to 30 000 times. Miri/TSan build failures or timeouts are inconclusive.",
          "DESIGN.md §5 C15"),
  "C16": ("exploration",
-         "four differential monitors over generated op histories and a hostile value domain: indexed vs never-indexed alpha memory, beta lookup vs scan of live facts, memoised vs direct node evaluation, conclusion index vs scan of enabled rules' Set actions; exhaustive over all value pairs of the domain",
+         "five differential monitors over generated op histories and a hostile value domain: indexed vs never-indexed alpha memory, beta lookup vs scan of live facts, memoised vs direct node evaluation, conclusion index vs scan of enabled rules' Set actions, BackwardEngine kept across knowledge-base edits + rebuild_index() vs an engine built from scratch; exhaustive over all value pairs of the domain",
          "After every operation of every generated history (<=10 ops) the optimised answer is compared with the plain one: AlphaMemoryIndex::filter for every field x every domain value against a shadow instance that never creates an index; BetaMemoryIndex::lookup for every printed key against the harness's list of live facts; every MemoizedEvaluator::evaluate against evaluate_typed on fact sets that print alike but differ in type; ConclusionIndex::find_candidates >= enabled present rules with a Set on the goal's field, for goals with every documented operator, spacing, string literals holding operator text, and negation. All (stored, probe) value pairs and all print-alike pairs x operators x literals are enumerated. Held = no comparison broke, apart from the listed known findings.",
          "alpha 'without index' is the library's own linear path. beta keys are Debug renderings (its own test's convention). The memo closure is evaluate_typed itself. conclusion: unique rule names while present, only Set counts as 'assigns', single-field goals only; inside BackwardEngine an empty index answer falls back to a linear scan, which masks the two conclusion findings at engine level.",
          "DESIGN.md §5 C16"),
